@@ -3,7 +3,10 @@ from __future__ import annotations
 
 import contextlib
 import io
+import os
 import random
+import sys
+import time
 from typing import Any, Callable, Iterable, Optional
 
 from harness.common import Ck, coq_bool, coq_list, coq_str, parse_coq_N_list, parse_coq_nested
@@ -47,7 +50,7 @@ MANIFEST = dict(
          'correspondence), the real Tokenizer as lexer of the line correspondences, CPython.',
 )
 
-IMPORTS = ['Coq.NArith.NArith', 'Coq.Lists.List', 'Coq.Strings.String', 'Coq.Bool.Bool', 'Coq.Arith.Arith', 'SV.Fmt.LongString', 'SV.Fmt.FgdBin', 'SV.Fmt.FgdBinEnt', 'SV.Fmt.FgdLine', 'SV.Fmt.FgdBody', 'SV.SM.LazyDb',
+IMPORTS = ['Coq.NArith.NArith', 'Coq.Lists.List', 'Coq.Strings.String', 'Coq.Bool.Bool', 'Coq.Arith.Arith', 'SV.Fmt.LongString', 'SV.Fmt.FgdBin', 'SV.Fmt.FgdBinEnt', 'SV.Fmt.FgdLine', 'SV.Fmt.FgdBody', 'SV.SM.LazyDb', 'SV.SM.LazyDbMulti',
            'SV.Gen.FgdConsts_gen', 'SV.Props.C16']
 PRE = '''Import ListNotations. Open Scope bool_scope. Open Scope N_scope. Open Scope list_scope.
 Fixpoint bad_idx {A} (f : A -> bool) (n : N) (l : list A) : list N :=
@@ -1280,6 +1283,278 @@ Fixpoint tr_eqb (a b : list (N * list nat * list N)) : bool :=
         ck.extra['lazy_disagreement'] = {'queries': rows[bad[0]][0], 'impl_trace': rows[bad[0]][1]}
 
 
+# ----------------------------------------------------------------------------------------------- several databases
+MULTI_UNIVERSE = list('abcdefgh')
+
+
+def build_engine_db(blocks: list[list[str]], bases: dict[str, list[str]], marks: dict[str, str]) -> Any:
+    """A hand-built EngineDB with the real serialisers and a full shared dictionary (as synth_db): class `Syn_<x>` carries the
+    keyvalue `kv_<x>` whose default is marks[x] (so that definitions of the same class in different databases differ), alias
+    classes store the base names bases[x]."""
+    from srctools import _engine_db as E
+    from srctools.fgd import EntityDef, EntityTypes, KVDef, ValueTypes
+    ents: dict[str, Any] = {}
+    for b in blocks:
+        for cn in b:
+            e = EntityDef(EntityTypes.POINT, 'Syn_' + cn, is_alias=cn in bases)
+            e.bases = ['Syn_' + x for x in bases.get(cn, [])]
+            e.keyvalues['kv_' + cn] = {frozenset(): KVDef('kv_' + cn, ValueTypes.INT, 'Disp ' + cn, marks[cn])}
+            ents[cn] = e
+    shared = sorted(['', 'Disp a'] + [f'shared{i:03d}' for i in range(E.SHARED_STRINGS - 2)])
+    base_dict = E.BinStrDict(shared, None)
+    unparsed, ent_map = [], {}
+    for bi, b in enumerate(blocks):
+        need: set[str] = set()
+        for cn in b:
+            E.ent_serialise(ents[cn], io.BytesIO(), lambda x, need=need: (need.add(x), b'\0\0')[1])
+        d = E.BinStrDict(need - set(shared), base_dict)
+        f = io.BytesIO()
+        d.serialise(f)
+        for cn in b:
+            E.ent_serialise(ents[cn], f, d)
+            ent_map[('Syn_' + cn).casefold()] = bi
+        unparsed.append((['Syn_' + cn for cn in b], f.getvalue()))
+    ent_map['_cbaseentity_'] = EntityDef(EntityTypes.BASE, '_CBaseEntity_')
+    return E.EngineDB(ent_map, shared, unparsed)
+
+
+def gen_multi_scenario(rng: random.Random) -> dict:
+    """2-3 databases over one small universe of class names (so that the same class is usually defined by several of them), each
+    with 1-3 blocks and alias classes whose bases live in the SAME database (other blocks included; cycles allowed), plus a
+    history of engine_def() queries (unknown names included) with FGD.engine_dbase() calls in between."""
+    dbs = []
+    for di in range(rng.choice([2, 2, 3])):
+        cls = rng.sample(MULTI_UNIVERSE, rng.randint(2, 5))
+        nb = rng.randint(1, min(3, len(cls)))
+        blocks: list[list[str]] = [[] for _ in range(nb)]
+        for i, cn in enumerate(cls):
+            blocks[i if i < nb else rng.randrange(nb)].append(cn)
+        bases = {}
+        for cn in cls:
+            if rng.random() < 0.35:
+                bases[cn] = [rng.choice([x for x in cls if x != cn])]
+        dbs.append(dict(blocks=blocks, bases=bases, marks={cn: str(100 * (di + 1) + MULTI_UNIVERSE.index(cn) + 1) for cn in cls}))
+    ops: list[Any] = []
+    for _ in range(rng.randint(2, 9)):
+        r = rng.random()
+        if r < 0.12:
+            ops.append(None)                                   # FGD.engine_dbase()
+        elif r < 0.2:
+            ops.append('Syn_zz')
+        else:
+            ops.append('Syn_' + rng.choice(MULTI_UNIVERSE))
+    ops.append(None)
+    return dict(dbs=dbs, ops=ops)
+
+
+def multi_expected(sc: dict, cn: str) -> Optional[tuple[str, list[str]]]:
+    """What the property promises for class `Syn_<cn>`: the definition in the first database of the list that has the class,
+    with the bases of THAT database: (mark, marks of the bases)."""
+    for d in sc['dbs']:
+        if cn in d['marks']:
+            return d['marks'][cn], [d['marks'].get(b, '?') for b in d['bases'].get(cn, [])]
+    return None
+
+
+def multi_observe(ent: Any) -> tuple[str, list[str]]:
+    """(mark, marks of the resolved bases; '' for a base left as a name) of a definition returned by the implementation."""
+    cn = ent.classname[4:]
+    kv = ent.keyvalues.get('kv_' + cn.casefold(), {}).get(frozenset())
+    out = []
+    for b in ent.bases:
+        if isinstance(b, str):
+            out.append('')
+        elif b.classname != '_CBaseEntity_':
+            bk = b.keyvalues.get('kv_' + b.classname[4:].casefold(), {}).get(frozenset())
+            out.append(bk.default if bk is not None else '?')
+    return (kv.default if kv is not None else '?'), out
+
+
+@contextlib.contextmanager
+def engine_db_list(dbs: Optional[list]):
+    """Run with srctools.fgd._ENGINE_DB replaced (None = not loaded yet); always restored."""
+    from srctools import fgd as F
+    old = F._ENGINE_DB
+    F._ENGINE_DB = dbs
+    try:
+        yield
+    finally:
+        F._ENGINE_DB = old
+
+
+def run_multi_impl(sc: dict) -> dict:
+    """Run the history on the real EntityDef.engine_def / FGD.engine_dbase over hand-built databases.  Returns per operation the
+    observation and the decoded blocks of every database."""
+    from srctools.fgd import EntityDef, FGD
+    dbs = [build_engine_db(d['blocks'], d['bases'], d['marks']) for d in sc['dbs']]
+    steps = []
+    with engine_db_list(dbs):
+        for op in sc['ops']:
+            if op is None:
+                whole = FGD.engine_dbase()
+                obs: Any = {k[4:]: multi_observe(e) for k, e in whole.entities.items() if k != '_cbaseentity_'}
+            else:
+                try:
+                    obs = multi_observe(EntityDef.engine_def(op.upper() if len(steps) % 5 == 4 else op))
+                except KeyError:
+                    obs = None
+            steps.append((op, obs, [[i for i, (_, blob) in enumerate(db.unparsed) if not blob] for db in dbs]))
+    return dict(steps=steps)
+
+
+def check_multi_scenario(sc: dict) -> list[tuple[str, str]]:
+    """[(violation key, text)] of one history."""
+    out = []
+    try:
+        res = run_multi_impl(sc)
+    except RecursionError:
+        return [('lazy-base-lookups-do-not-terminate', 'engine_def / engine_dbase over several hand-built databases recurses without end')]
+    except Exception as ex:   # noqa: BLE001
+        return [('lazy-multi-db-raises:' + type(ex).__name__, f'engine_def / engine_dbase over several hand-built databases raises {ex!r}')]
+    for i, (op, obs, _) in enumerate(res['steps']):
+        before = [o if o is not None else 'engine_dbase()' for o, _, _ in res['steps'][:i]]
+        if op is None:
+            for cn in MULTI_UNIVERSE:
+                want = multi_expected(sc, cn)
+                got = obs.get(cn)
+                if got != want:
+                    which = [j for j, d in enumerate(sc['dbs']) if cn in d['marks']]
+                    if got is not None and want is not None and len(which) > 1 and got[0] == sc['dbs'][which[-1]]['marks'][cn]:
+                        out.append(('lazy-multi-db-whole-database-has-later-definition',
+                                    f'FGD.engine_dbase()[Syn_{cn}] is the definition of database {which[-1]} of the list (mark {got[0]}), '
+                                    f'EntityDef.engine_def answers with database {which[0]} (mark {want[0]}); after {before}'))
+                    else:
+                        out.append(('lazy-multi-db-whole-database-differs', f'FGD.engine_dbase()[Syn_{cn}] = {got}, the first database that '
+                                    f'defines the class says {want}; after {before}'))
+        else:
+            want = multi_expected(sc, op[4:])
+            if obs != want:
+                if obs is not None and '' in obs[1]:
+                    out.append(('lazy-base-unresolved', f'engine_def({op!r}) over {len(sc["dbs"])} databases returned a definition with a '
+                                f'base left as a name; after {before}'))
+                else:
+                    out.append(('lazy-multi-db-lookup-differs', f'engine_def({op!r}) = {obs}, the first database that defines the class '
+                                f'says {want}; after {before}'))
+    return out
+
+
+def shrink_multi(sc: dict, key: str) -> dict:
+    """Drop operations, classes and aliases while the same violation remains."""
+    import copy
+
+    def bad(x: dict) -> bool:
+        return any(k == key for k, _ in check_multi_scenario(x))
+    cur = sc
+    changed = True
+    while changed:
+        changed = False
+        for i in range(len(cur['ops']) - 1, -1, -1):
+            t = copy.deepcopy(cur)
+            del t['ops'][i]
+            if t['ops'] and bad(t):
+                cur, changed = t, True
+        for di in range(len(cur['dbs'])):
+            for cn in list(cur['dbs'][di]['marks']):
+                t = copy.deepcopy(cur)
+                td = t['dbs'][di]
+                if sum(len(b) for b in td['blocks']) <= 1 or any(cn in v for v in td['bases'].values()):
+                    continue
+                td['blocks'] = [b for b in ([x for x in b if x != cn] for b in td['blocks']) if b]
+                td['marks'].pop(cn)
+                td['bases'].pop(cn, None)
+                if bad(t):
+                    cur, changed = t, True
+            for cn in list(cur['dbs'][di]['bases']):
+                t = copy.deepcopy(cur)
+                t['dbs'][di]['bases'].pop(cn)
+                if bad(t):
+                    cur, changed = t, True
+    return cur
+
+
+MULTI_PRE = '''
+Definition ent0 : Type := (N * list N)%type.
+Definition mdec (tbl : list (N * list N)) (cs : list N) (data : N) : list ent0 :=
+  map (fun c => let k := c + 100 * (data / 100) in (k, map (fun b => b mod 100) (match find (fun p => fst p =? k) tbl with Some p => snd p | None => [] end))) cs.
+Definition summ (x : option (ent0 * list (option ent0))) : N * list N :=
+  match x with Some (e, rb) => (fst e, map (fun o => match o with Some b => fst b | None => 0 end) rb) | None => (0, []) end.
+Definition FUEL := 4%nat.
+Fixpoint mtrace (tbl : list (N * list N)) (ds : list (db N ent0 N)) (qs : list N) : list ((N * list N) * list (list nat)) :=
+  match qs with [] => [] | c :: r =>
+    let '(x, ds') := engine_def N ent0 N N.eqb (mdec tbl) (fun e => snd e) (N.eqb 0) 0 lazy_via_get_ent FUEL ds c in
+    (summ x, map (parsed_blocks N ent0 N (N.eqb 0)) ds') :: mtrace tbl ds' r end.
+Fixpoint nn_eqb (a b : list (list nat)) : bool :=
+  match a, b with [], [] => true | x :: a', y :: b' => nlist_eqb (map N.of_nat x) (map N.of_nat y) && nn_eqb a' b' | _, _ => false end.
+Fixpoint mtr_eqb (a b : list ((N * list N) * list (list nat))) : bool :=
+  match a, b with [], [] => true | (x, l) :: a', (y, m) :: b' => (fst x =? fst y) && nlist_eqb (snd x) (snd y) && nn_eqb l m && mtr_eqb a' b' | _, _ => false end.
+Fixpoint wh_eqb (a b : list (N * list N)) : bool :=
+  match a, b with [], [] => true | (x, p) :: a', (y, q) :: b' => (x =? y) && nlist_eqb p q && wh_eqb a' b' | _, _ => false end.
+Definition mcase (c : list (N * list N) * list (list (list N * N)) * list N * list ((N * list N) * list (list nat)) * list (N * list N)) : bool :=
+  let '(tbl, files, qs, tr, wh) := c in
+  mtr_eqb (mtrace tbl (map (init N ent0 N) files) qs) tr
+  && wh_eqb (map (fun c => summ (engine_dbase N ent0 N N.eqb (mdec tbl) (fun e => snd e) (N.eqb 0) 0 lazy_via_get_ent engine_dbase_merge FUEL files c))
+                 [1; 2; 3; 4; 5; 6; 7; 8]) wh.
+'''
+
+
+def corr_multi(ck: Ck, via: bool, merge_first: bool) -> None:
+    """EntityDef.engine_def histories and the final FGD.engine_dbase() over lists of hand-built databases vs SM/LazyDbMulti.v
+    engine_def / engine_dbase, the model in the modes read from the source."""
+    rng = ck.rng
+    rows = []
+    for _ in range(ck.budget(40, 300)):
+        sc = gen_multi_scenario(rng)
+        sc['ops'] = [o for o in sc['ops'] if o is not None] + [None]          # queries, then the whole database once
+        try:
+            res = run_multi_impl(sc)
+        except Exception as ex:   # noqa: BLE001
+            ck.notes.append(f'corr_multi: implementation raised {ex!r} on {sc}')
+            rows.append((sc, None))
+            continue
+        rows.append((sc, res))
+        ck.count('corr_multi_histories')
+        ck.hist('multi_databases', len(sc['dbs']))
+        ck.hist('multi_classes_in_both_first_databases', len(set(sc['dbs'][0]['marks']) & set(sc['dbs'][1]['marks'])))
+        if len(sc['ops']) > 2:
+            ck.seen(('multicorr', repr(sc)))
+    ident = {cn: i + 1 for i, cn in enumerate(MULTI_UNIVERSE)}
+
+    def nm(x: str) -> int:
+        return int(x) if x.isdigit() else 0
+    lits = []
+    for sc, res in rows:
+        tbl = coq_list('(%d, [%s])' % (int(d['marks'][cn]), ';'.join(str(int(d['marks'][b])) for b in bs if b in d['marks']))
+                       for d in sc['dbs'] for cn, bs in sorted(d['bases'].items()))
+        files = coq_list(coq_list('([%s], %d)' % (';'.join(str(ident[cn]) for cn in b), 100 * (di + 1) + bi + 1) for bi, b in enumerate(d['blocks']))
+                         for di, d in enumerate(sc['dbs']))
+        qs = [ident.get(o[4:], 0) for o in sc['ops'] if o is not None]
+        if res is None:
+            lits.append(f'({tbl}, {files}, {coq_N(qs)}, [], [])')
+            continue
+        tr = coq_list('((%d, [%s]), %s)' % (nm(obs[0]) if obs else 0, ';'.join(str(nm(x)) for x in (obs[1] if obs else [])),
+                                                coq_list('[%s]%%nat' % ';'.join(map(str, pb)) for pb in parsed))
+                      for op, obs, parsed in res['steps'] if op is not None)
+        whole = res['steps'][-1][1]
+        wh = coq_list('(%d, [%s])' % (nm(whole[cn][0]) if cn in whole else 0, ';'.join(str(nm(x)) for x in (whole[cn][1] if cn in whole else [])))
+                      for cn in MULTI_UNIVERSE)
+        lits.append(f'({tbl}, {files}, {coq_N(qs)}, {tr}, {wh})')
+    vals = ck.coq_eval(IMPORTS, [f'bad_idx mcase 0 {coq_list(lits)}'], name='multi', preamble=PRE + MULTI_PRE, timeout=900)
+    if vals is None:
+        ck.obligation('correspondence:multi_db', False, 'model could not be evaluated')
+        ck.tie_broken.append('correspondence several engine databases: model evaluation failed')
+        return
+    bad = parse_coq_N_list(vals[0])
+    ck.obligation('correspondence:multi_db', not bad,
+                  f'{len(rows)} histories of EntityDef.engine_def over 2-3 hand-built databases that define the same class names (real '
+                  f'serialisers): answer, what its stored base names were replaced by and the decoded blocks of every database after every '
+                  f'query, then FGD.engine_dbase() for every class, vs SM/LazyDbMulti.v engine_def / engine_dbase (bases resolved '
+                  f'{"through get_ent" if via else "by a look-up in ent_map"}, merge keeps the {"first" if merge_first else "last"} definition, '
+                  f'as read from the source): {len(bad)} disagreements')
+    if bad:
+        ck.tie_broken.append('correspondence EntityDef.engine_def / FGD.engine_dbase (SM/LazyDbMulti.v)')
+        ck.extra['multi_disagreement'] = {'scenario': rows[bad[0]][0], 'impl': rows[bad[0]][1]}
+
+
 # =============================================================================================== canonical definitions
 def canon_attr(v: Any, io_kind: bool, choice_norm: bool = True) -> tuple:
     from srctools.fgd import VALUE_TO_IO_DECAY, KVDef, ValueTypes
@@ -1791,6 +2066,48 @@ def search_binary(ck: Ck, data: bytes) -> None:
             ck.seen(('binent', i))
 
 
+def search_binary_small(ck: Ck, names: list[str]) -> None:
+    """Whole-database round trip of SMALL generated engine-format FGDs (about 22 classes): serialise -> unserialise -> get_fgd keeps every
+    class and every definition.  Small databases exercise build_blocks differently from the bundled one: entities that no overlapping
+    pair placed go to the overflow blocks."""
+    from srctools import _engine_db as E
+    rng = ck.rng
+    lost_reported = False
+    for i in range(ck.budget(8, 80)):
+        ofgd, want = make_override_fgd(rng, names)
+        buf = io.BytesIO()
+        try:
+            with contextlib.redirect_stdout(io.StringIO()):
+                E.serialise(ofgd, buf)
+            back = E.unserialise(io.BytesIO(buf.getvalue()))
+            known = set(back.get_classnames())
+        except Exception as ex:   # noqa: BLE001
+            ck.violation('binary-serialise-raises', f'serialise/unserialise of a generated {len(want)}-class database raises {type(ex).__name__}: {ex}',
+                         {'kind': 'binary'})
+            continue
+        ck.count('search_binary_small_databases')
+        ck.seen(('binsmall', i, len(buf.getvalue())))
+        missing = sorted(set(want) - known)
+        if missing and not lost_reported:
+            lost_reported = True
+            ck.violation('binary-database-loses-entities', f'serialise() of a generated database with {len(want)} classes writes only '
+                         f'{len(known) - 1}: {missing} are not in the file (unserialise().get_classnames())',
+                         {'kind': 'binary_small', 'classes': sorted(want), 'missing': missing})
+        if missing:
+            continue
+        try:
+            f2 = back.get_fgd()
+        except Exception as ex:   # noqa: BLE001
+            ck.violation('binary-unserialise-raises', f'get_fgd() of a generated {len(want)}-class database raises {type(ex).__name__}: {ex}', {'kind': 'binary'})
+            continue
+        for k, c in want.items():
+            d = diff_fields(c, multi_canon(f2.entities[k]))
+            if d:
+                ck.violation('binary-roundtrip-changed:' + '+'.join(d), f'{k} of a generated database differs in {d} after serialise -> unserialise',
+                             {'kind': 'binary', 'field': d, 'entities': [k]})
+                break
+
+
 def search_lazy(ck: Ck, data: bytes, tb: dict) -> None:
     """engine_def-style look-ups in random orders on fresh databases vs the fully loaded database."""
     import copy
@@ -1936,7 +2253,157 @@ def search_lazy_synthetic(ck: Ck) -> None:
         del state
 
 
+def make_override_fgd(rng: random.Random, bundled_names: list[str]) -> tuple[Any, dict[str, Any]]:
+    """An engine-format FGD for add_engine_database(): `_CBaseEntity_`, redefinitions of a few classes of the bundled database, new
+    classes and aliases of classes of the same FGD; enough distinct strings for serialise() (it needs SHARED_STRINGS shared ones).
+    Returns the FGD and the canonical form of every definition (what engine_def / engine_dbase must give back)."""
+    from srctools import _engine_db as E
+    from srctools.fgd import FGD, EntityDef, EntityTypes, IODef, KVDef, ValueTypes
+    fgd = FGD()
+    fgd.entities['_cbaseentity_'] = EntityDef(EntityTypes.BASE, '_CBaseEntity_')
+    redefined = rng.sample(bundled_names, 4)
+    names = redefined + [f'mod_new_{i}' for i in range(14)]
+    plain_types = [t for t in ValueTypes if t not in (ValueTypes.CHOICES, ValueTypes.SPAWNFLAGS)]
+    n_kv = E.SHARED_STRINGS // len(names) + 4
+    for i, cn in enumerate(names):
+        e = EntityDef(EntityTypes.POINT, cn)
+        for j in range(n_kv):
+            nm = f'mod_kv_{i}_{j}'
+            e.keyvalues[nm] = {frozenset(): KVDef(nm, rng.choice(plain_types), f'Mod display {i} {j}', str(rng.randint(0, 99)))}
+        e.inputs['modin'] = {frozenset(): IODef('ModIn', ValueTypes.VOID)}
+        fgd.entities[cn.casefold()] = e
+    for i in range(3):                                     # aliases inside the added database (one of a redefined class)
+        tgt = [redefined[0], 'mod_new_0', 'mod_new_1'][i]
+        a = EntityDef(EntityTypes.POINT, f'mod_alias_{i}', is_alias=True)
+        a.bases = [tgt]
+        fgd.entities[a.classname] = a
+    return fgd, {k: multi_canon(e) for k, e in fgd.entities.items() if k != '_cbaseentity_'}
+
+
+def multi_canon(e: Any) -> dict:
+    """engine_canon without the implicit `_CBaseEntity_` base, keyvalues by name, resources () == None."""
+    c = engine_canon(e)
+    c['bases'] = [b for b in c['bases'] if b != '_CBaseEntity_']
+    c['keyvalues'] = sorted(c['keyvalues'], key=repr)
+    c['resources'] = c['resources'] or None
+    return c
+
+
+def added_database_rng(seed: int) -> random.Random:
+    return random.Random(seed * 1000 + 16)
+
+
+def search_multi_db(ck: Ck, data: bytes, tb: dict) -> None:
+    """Several engine databases.  (1) hand-built lists of 2-3 small databases that define the same class names: random histories of
+    EntityDef.engine_def and FGD.engine_dbase against what the first database of the list says.  (2) the public path: a generated
+    FGD written by the real serialise() to a file, add_engine_database(file) in front of the bundled database, look-ups in a random
+    order, then the whole database."""
+    rng = ck.rng
+    reported: set[str] = set()
+    for i in range(ck.budget(60, 800)):
+        sc = gen_multi_scenario(rng)
+        ck.count('search_multi_db_histories')
+        ck.hist('multi_history_ops', len(sc['ops']))
+        if len(sc['ops']) > 2:
+            ck.seen(('multidb', repr(sc)))
+        for key, text in check_multi_scenario(sc):
+            if key in reported:
+                continue
+            reported.add(key)
+            small = shrink_multi(sc, key)
+            text = next((t for k, t in check_multi_scenario(small) if k == key), text)
+            ck.violation(key, text + f' [databases, first = front of the list: {small["dbs"]}]', {'kind': 'multi_db', 'scenario': small})
+    # ---- (2) serialise -> file -> add_engine_database in front of the bundled database
+    for key, text, rep in check_added_database(ck, tb['names'], ck.seed, ck.budget(40, 400)):
+        ck.violation(key, text, rep)
+    ck.seen(('multidb-file', ck.seed))
+
+
+def check_added_database(ck: Optional[Ck], names: list[str], seed: int, n_bundled: int) -> list[tuple[str, str, dict]]:
+    from srctools import _engine_db as E
+    from srctools import fgd as F
+    rng = added_database_rng(seed)
+    out: list[tuple[str, str, dict]] = []
+    scratch = ck.scratch if ck is not None else __import__('pathlib').Path(__import__('tempfile').mkdtemp(prefix='sv_C16_replay_', dir='/var/tmp'))
+    try:
+        ofgd, want = make_override_fgd(rng, names)
+        path = scratch / 'c16_added_database.bin'
+        with open(path, 'wb') as f, contextlib.redirect_stdout(io.StringIO()):
+            E.serialise(ofgd, f)
+    except Exception as ex:   # noqa: BLE001
+        return [('binary-serialise-raises', f'serialise(generated engine-format FGD) raises {type(ex).__name__}: {ex}', {'kind': 'binary'})]
+    known = set(names)
+    replay = {'kind': 'added_database', 'seed': seed, 'n_bundled': n_bundled, 'redefined': [k for k in want if k in known]}
+    with engine_db_list(None):
+        try:
+            F.add_engine_database(path)
+            order = list(want) + rng.sample(names, n_bundled)
+            rng.shuffle(order)
+            first: dict[str, dict] = {}
+            for q in order:
+                first[q] = multi_canon(F.EntityDef.engine_def(q))
+                if ck is not None:
+                    ck.count('search_multi_db_lookups')
+            whole = F.FGD.engine_dbase()
+            classes = F.EntityDef.engine_classes()
+        except Exception as ex:   # noqa: BLE001
+            return [('lazy-multi-db-raises:' + type(ex).__name__, f'add_engine_database(file) + engine_def/engine_dbase raises {ex!r}', replay)]
+        later = [q for q in order if q in want and multi_canon(whole.entities[q]) != first[q]]
+        if later:
+            out.append(('lazy-multi-db-whole-database-has-later-definition' if all(q in known for q in later) else 'lazy-multi-db-whole-database-differs',
+                f'after add_engine_database(): FGD.engine_dbase() and EntityDef.engine_def() give different definitions for {later[:4]} '
+                f'(classes that the added database redefines: {replay["redefined"]})', dict(replay, entities=later[:6])))
+        wrong = [q for q in want if diff_fields(want[q], first[q])]
+        if wrong:
+            out.append(('lazy-multi-db-lookup-differs', f'after add_engine_database(): engine_def() does not return the added definition of '
+                        f'{wrong[:4]} (fields {diff_fields(want[wrong[0]], first[wrong[0]])})', dict(replay, entities=wrong[:6])))
+        other = [q for q in order if q not in want and multi_canon(whole.entities[q]) != first[q]]
+        if other:
+            out.append(('lazy-multi-db-whole-database-differs', f'after add_engine_database(): engine_dbase() and engine_def() differ for '
+                        f'classes only the bundled database defines: {other[:4]}', dict(replay, entities=other[:6])))
+        if set(classes) != set(whole.entities):
+            out.append(('lazy-multi-db-classnames-differ', 'engine_classes() is not the key set of engine_dbase().entities: '
+                        f'{sorted(set(classes) ^ set(whole.entities))[:6]}', replay))
+    return out
+
+
 # =============================================================================================== main
+def timed(label: str, fn: Callable[..., Any], *args: Any) -> Any:
+    """Run one stage; with C16_TIMING set, print its wall time to stderr (information only, never part of a result)."""
+    t0 = time.time()
+    try:
+        return fn(*args)
+    finally:
+        if os.environ.get('C16_TIMING'):
+            print(f'[C16 timing] {label}: {time.time() - t0:.1f}s', file=sys.stderr)
+
+
+def theorems_in_background(ck: Ck) -> Callable[[], None]:
+    """`ck.theorems` (Print Assumptions of every theorem: one coqc process, 15-20 s) runs while the correspondences run (other coqc
+    processes and Python).  The returned function waits for it and moves its obligations to where a sequential call would have put
+    them, so that the recorded order does not depend on timing."""
+    import threading
+    at = len(ck.obligations)
+    err: list[BaseException] = []
+
+    def work() -> None:
+        try:
+            timed('theorems', ck.theorems, 'Props/C16.v')
+        except BaseException as e:   # noqa: BLE001
+            err.append(e)
+    th = threading.Thread(target=work, name='c16-theorems')
+    th.start()
+
+    def join() -> None:
+        th.join()
+        if err:
+            raise err[0]
+        mine = [o for o in ck.obligations if o['name'].startswith(('theorem:', 'assumptions:'))]
+        rest = [o for o in ck.obligations if not o['name'].startswith(('theorem:', 'assumptions:'))]
+        ck.obligations[:] = rest[:at] + mine + rest[at:]
+    return join
+
+
 def run(ck: Ck) -> None:
     ck.rule = ('long strings: texts built from words, escapes and runs without spaces with lengths around multiples of LIMIT and an '
                'escape placed at the cut, distinct by (syntax, text), non-trivial = needs escaping or splitting; generated FGDs: 1-4 '
@@ -1962,13 +2429,14 @@ def run(ck: Ck) -> None:
         'custom_syntax=False cannot represent ", \\ and CR in texts, nor tags/resources/extension helpers/aliasof (documented loss)',
         'accepted normalisations: I/O type decay, empty BOOL default = "0", effective keyvalue order, newline -> space in choice/flag names',
     ]
-    ok_t = ck.translate('FgdConsts_gen', c16_fgd.translate)
+    ok_t = timed('translate', ck.translate, 'FgdConsts_gen', c16_fgd.translate)
     side = ck.extra.get('translated', {}).get('FgdConsts_gen', {})
-    built = ok_t and ck.build(['Props/C16.vo'])
+    built = ok_t and timed('build', ck.build, ['Props/C16.vo'])
     data = raw_db()
     tb = db_tables(data)
+    th_join: Callable[[], None] = lambda: None
     if built:
-        ck.theorems('Props/C16.v')
+        th_join = theorems_in_background(ck)
         ck.instance_obligations(IMPORTS, {
             'escape_table_invertible': 'table_ok esc_pairs esc_excluded',
             'longstring_limits_sane': 'limits_ok',
@@ -2005,16 +2473,23 @@ def run(ck: Ck) -> None:
             'text_empty_resources_need_the_block': 'empty_resources_need_block',
             'lazy_bases_resolved_through_get_ent': 'lazy_via_get_ent',
             'lazy_map_lookup_is_refuted': 'map_lookup_breaks',
+            'multi_db_engine_dbase_keeps_first_definition': 'merge_is_first engine_dbase_merge',
+            'multi_db_engine_def_returns_first_hit': 'engine_def_returns_first_hit',
+            'multi_db_modes_agree_is_these': 'Bool.eqb multi_modes_agree (merge_is_first engine_dbase_merge && engine_def_returns_first_hit)',
+            'multi_db_overwriting_merge_is_refuted': 'overwrite_merge_breaks',
         }, name='c16')
-        data_obligations(ck, data, tb)
-        corr_writer_reader(ck)
-        corr_bits(ck)
-        corr_strdict(ck)
-        corr_binary_records(ck, data, tb)
-        line_data_obligations(ck)
-        corr_lines(ck)
+        timed('data_obligations', data_obligations, ck, data, tb)
+        timed('corr_writer_reader', corr_writer_reader, ck)
+        timed('corr_bits', corr_bits, ck)
+        timed('corr_strdict', corr_strdict, ck)
+        timed('corr_binary_records', corr_binary_records, ck, data, tb)
+        timed('line_data_obligations', line_data_obligations, ck)
+        timed('corr_lines', corr_lines, ck)
         lazy_side = side.get('engine_db', {}).get('lazy', {})
-        corr_lazy(ck, data, tb, bool(lazy_side.get('via_get_ent', True)))
+        timed('corr_lazy', corr_lazy, ck, data, tb, bool(lazy_side.get('via_get_ent', True)))
+        multi_side = side.get('multi_db', {})
+        timed('corr_multi', corr_multi, ck, bool(lazy_side.get('via_get_ent', True)), bool(multi_side.get('effective_first', True)))
+        ck.extra['added_database_goes'] = multi_side.get('added_database_goes')
         # Information only: the model marks a block as decoded before its bases loop, as the source does today.  Marking it
         # afterwards is observably the same (ent_map already holds the block's definitions, so no look-up re-enters the block):
         # no obligation, the lazy budgets are raised instead.
@@ -2025,12 +2500,15 @@ def run(ck: Ck) -> None:
         # informational: duplicates in the order lists (harmless, see c16_order_roundtrip)
         vo = side.get('engine_db', {}).get('vt_order', [])
         ck.extra['value_type_order_duplicates'] = sorted({x for x in vo if vo.count(x) > 1})
-    search_longstring(ck)
-    search_bundled(ck)
-    search_generated(ck)
-    search_binary(ck, data)
-    search_lazy(ck, data, tb)
-    search_lazy_synthetic(ck)
+    th_join()
+    timed('search_longstring', search_longstring, ck)
+    timed('search_bundled', search_bundled, ck)
+    timed('search_generated', search_generated, ck)
+    timed('search_binary', search_binary, ck, data)
+    timed('search_binary_small', search_binary_small, ck, tb['names'])
+    timed('search_lazy', search_lazy, ck, data, tb)
+    timed('search_lazy_synthetic', search_lazy_synthetic, ck)
+    timed('search_multi_db', search_multi_db, ck, data, tb)
     keys = {v['key'] for v in ck.violations}
     # Failed obligations are explained by a concrete violation of the same mechanism (with a replayable input).
     if any(k.startswith('longstring:empty-text') or k.startswith('bundled-db-export-unparseable:empty-display-name') for k in keys):
@@ -2057,7 +2535,7 @@ def run(ck: Ck) -> None:
         ck.explain('instance:text_line_cfg_ok_is_these')
         ck.explain('correspondence:text_lines_')
     # a translator that failed closed at a site is explained by a concrete violation of the mechanism that site belongs to
-    site_of = (('EngineDB', 'lazy-'), ('_parse_block', 'lazy-'), ('get_fgd', 'lazy-'), ('serialise', 'binary-'), ('BinStrDict', 'binary-'),
+    site_of = (('engine_dbase', 'lazy-multi-db'), ('engine_def', 'lazy-multi-db'), ('add_engine_database', 'lazy-multi-db'), ('EngineDB', 'lazy-'), ('_parse_block', 'lazy-'), ('get_fgd', 'lazy-'), ('serialise', 'binary-'), ('BinStrDict', 'binary-'),
                ('_write_longstring', 'longstring:'), ('_fgd_escape', 'longstring:'), ('ESCAPE', 'longstring:'),
                ('KVDef.export', 'generated-fgd'), ('IODef.export', 'generated-fgd'), ('EntityDef.export', 'generated-fgd'))
     for tie in ck.tie_broken:
@@ -2067,6 +2545,9 @@ def run(ck: Ck) -> None:
     if any(k.startswith('lazy-') for k in keys):
         ck.explain('correspondence:lazy_db')
         ck.explain('instance:lazy_')
+    if any(k.startswith('lazy-multi-db') for k in keys):
+        ck.explain('correspondence:multi_db')
+        ck.explain('instance:multi_db_')
 
 
 # =============================================================================================== replay
@@ -2103,6 +2584,25 @@ def replay(data: dict) -> int:
             print('RecursionError: the base look-ups do not terminate')
             bad += 1
         return 1 if bad else 0
+    if kind == 'multi_db':
+        sc = r['scenario']
+        for i, d in enumerate(sc['dbs']):
+            print(f'database {i} of the list: blocks {d["blocks"]}, stored bases {d["bases"]}, marks {d["marks"]}')
+        print('operations (None = FGD.engine_dbase()):', sc['ops'])
+        try:
+            for op, obs, parsed in run_multi_impl(sc)['steps']:
+                print(f'  {"engine_dbase()" if op is None else "engine_def(%r)" % op} -> {obs}')
+        except Exception as e:   # noqa: BLE001
+            print('raises', repr(e))
+        found = check_multi_scenario(sc)
+        for k, t in found:
+            print('VIOLATION', k, ':', t)
+        return 1 if found else 0
+    if kind == 'added_database':
+        found3 = check_added_database(None, db_tables(raw_db())['names'], r['seed'], r.get('n_bundled', 40))
+        for k, t, _ in found3:
+            print('VIOLATION', k, ':', t)
+        return 1 if found3 else 0
     if kind == 'bundled':
         from srctools.fgd import FGD
         res = roundtrip_fgd(FGD.engine_dbase(), r['opts'])
